@@ -39,7 +39,7 @@ def imu_times(pattern, n, t0):
 
 def slot_times(times):
     """4N+3 slots: before start, every IMU epoch (incl. start and end), the three
-    interior quarter points of every interval, after end."""
+    interior quarter points of every interval, after end; followed by their 4N+3 twins."""
     slots = [times[0] - 0.5]
     for a, b in zip(times[:-1], times[1:]):
         slots.append(a)
@@ -47,7 +47,18 @@ def slot_times(times):
             slots.append(a + f * (b - a))
     slots.append(times[-1])
     slots.append(times[-1] + 0.5)
-    return slots
+    # twin slots (index + 4N+3): the same places a quarter of a microsecond later - distinct epochs that
+    # any rounding / tolerance-based merging of time stamps would wrongly identify
+    return slots + [s + TWIN_EPS for s in slots]
+
+
+TWIN_EPS = 2.0 ** -22
+
+
+def twin_family(n):
+    """For every slot the pairs {sample at the slot, sample at its twin slot} over all sensor pairs."""
+    ns = 4 * n + 3
+    return [[(s, k1), (s + ns, k2)] for s in range(ns) for k1 in SENSORS for k2 in SENSORS]
 
 
 def sample_alphabet(n):
@@ -300,6 +311,13 @@ def run_filter(kind, case):
         call = lambda: filters.run_feedforward_filter(traj, traj, *SDS, **kwargs)  # noqa
     res = None
     err = None
+    if case.get('rerun'):
+        # the observed run is the SECOND call with the same measurement and model objects
+        try:
+            call()
+        except Exception:  # noqa  (the first call's own failures are reported by the plain schedule)
+            pass
+        del log[:]
     with mon:
         try:
             res = call()
